@@ -3,11 +3,13 @@
 (* GenMode: every distinct state of the client is printed once with the (shortest) history *)
 (* of abstract events that reaches it - the schedules the real APIClient is driven along.  *)
 EXTENDS Client, Json
-CONSTANTS MaxConn, MaxSteps, GenMode
+CONSTANTS MaxConn, MaxSteps, GenMode,
+          UseNames     \* TRUE: expected / announced device names are part of the instance (hooks off, to keep it small)
 VARIABLES k, hist, fin
 mvars == <<c, k, hist, fin>>
 mview == <<c, fin>>
-MInit == (\E h \in {"none", "start", "api"} : CInitH(h)) /\ k = 0 /\ hist = <<>> /\ fin = FALSE
+MInit == /\ IF UseNames THEN \E nz \in BOOLEAN : CInitHN("none", nz) ELSE \E h \in {"none", "start", "api"} : CInitH(h)
+         /\ k = 0 /\ hist = <<>> /\ fin = FALSE
 Step(S, tok) == /\ ~fin /\ k < MaxSteps /\ k' = k + 1 /\ c' \in S /\ UNCHANGED fin
                 /\ hist' = IF GenMode THEN Append(hist, tok) ELSE hist
 PhaseKind(j) == <<c.phs[j].k, c.phs[j].op>>
@@ -19,6 +21,10 @@ MNext ==
   \/ \E f \in BOOLEAN : Step(UserDisconnect(c, f), <<"disconnect", f>>)
   \/ Step(UserApi(c), <<"api">>)
   \/ \E r \in {"ok", "err"}, j \in 1..Len(c.phs) : Step(PhaseEnd(c, j, r), <<"phase", r, c.phs[j].k>>)
+  \/ UseNames /\ \E j \in 1..Len(c.phs) : Step(PhaseEnd(c, j, "badname"), <<"phase", "badname", c.phs[j].k>>)
+  \/ UseNames /\ \E n \in {"none", "dev", "oth"} : n # c.exp /\ Step(UserExpect(c, n), <<"expect", n>>)
+  \/ UseNames /\ \E i \in 1..N(c), n \in {"dev", "oth", ""} :
+        c.hn[i] = "none" /\ (\E j \in 1..Len(c.phs) : c.phs[j].on = i /\ c.phs[j].k = "finish") /\ Step(EnvHello(c, i, n), <<"hello", n>>)
   \/ Step(Progress(c), <<"progress">>)
   \/ \E i \in 1..N(c) : Step(EnvClose(c, i), <<"close", IF c.st[i] = "connected" THEN "session" ELSE "early">>)
   \/ \E i \in 1..N(c) : c.st[i] # "closed" /\ HasIO(c, i) /\ i \notin c.wf /\ Step(EnvWriteFail(c, i), <<"writefail">>)
@@ -27,6 +33,10 @@ MNext ==
   \/ /\ GenMode /\ ~fin /\ Len(hist) >= 2 /\ fin' = TRUE /\ UNCHANGED <<c, k, hist>>
      /\ PrintT(<<"SCHED", ToJson(<<c.hook, hist>>)>>)
 MSpec == MInit /\ [][MNext]_mvars
+\* C06 at the client level: a session exists only with a device whose announced names fit the expectation in force
+SessionNameOK == [][\A i \in 1..N(c) : (c.st[i] # "connected" /\ c'.st[i] = "connected") => ~NameBad(c, i)]_mvars
+\* ... and the bad-name error is reserved for names that differ
+BadNameOnlyIfBad == [][\A d \in 1..Len(c'.dn) : c'.dn[d][2] = "BadNameAPIError" => \E i \in 1..N(c) : NameBad(c, i)]_mvars
 \* vacuity guards: these must be reachable (checked as violated invariants in the self-test)
 NeverSecondSession == ~(N(c) >= 2 /\ c.st[2] = "connected")
 =============================================================================
